@@ -29,12 +29,14 @@ type AsmCase struct {
 func (a *AsmCase) text() string { return strings.Join(a.Lines, "\n") + "\n" }
 
 type poolInfo struct {
-	Sigma  []string `json:"sigma"`
-	N      int      `json:"n"`
-	SymMap any      `json:"symmap"`
-	Config string   `json:"config"`
-	CfgSel string   `json:"cfgsel"`
-	Pool   []struct {
+	Sigma    []string `json:"sigma"`
+	N        int      `json:"n"`
+	SymMap   any      `json:"symmap"`
+	Config   string   `json:"config"`
+	CfgSel   string   `json:"cfgsel"`
+	CfgName  string   `json:"cfgname"`
+	CfgDecoy string   `json:"cfgdecoy"`
+	Pool     []struct {
 		Txt  string   `json:"txt"`
 		Lang []string `json:"lang"`
 	} `json:"pool"`
@@ -60,6 +62,7 @@ type asmReplayer struct {
 	keepMod      uint64 // keep a case when hash%keepMod==0 (1 = all)
 	sharedFiles  map[string][]string
 	sharedConfig string
+	cfgName      string // name of the configuration file when it is not toolchain.yaml (selected with -f)
 	nontriv      func(cs *AsmCase) bool
 	onOutput     func(cs *AsmCase, out string) // called with every successfully generated regex
 	traceMu      sync.Mutex
@@ -145,7 +148,15 @@ func (r *asmReplayer) onCase(raw []byte) error {
 		r.sharedConfig = pi.P.Config
 		if pi.P.Config != "" {
 			// toolchain.yaml of this model instance (absent when empty)
-			if err := writeTree(r.root, Tree{"regex-assembly/toolchain.yaml": pi.P.Config}); err != nil {
+			name := "toolchain.yaml"
+			t := Tree{}
+			if pi.P.CfgName != "" && pi.P.CfgName != name {
+				name = pi.P.CfgName
+				r.cfgName = name
+				t["regex-assembly/toolchain.yaml"] = pi.P.CfgDecoy // must be ignored
+			}
+			t["regex-assembly/"+name] = pi.P.Config
+			if err := writeTree(r.root, t); err != nil {
 				return err
 			}
 		}
@@ -300,7 +311,11 @@ func (r *asmReplayer) viaCLI(root, text string) asmObs {
 		r.traceSrc = append(r.traceSrc, text)
 		r.traceMu.Unlock()
 	}
-	res := r.c.runCLIEnv(root, text, env, 20*time.Second, "-d", root, "regex", "generate", "-")
+	args := []string{"-d", root, "regex", "generate", "-"}
+	if r.cfgName != "" {
+		args = append([]string{"-f", r.cfgName}, args...)
+	}
+	res := r.c.runCLIEnv(root, text, env, 20*time.Second, args...)
 	atomic.AddInt64(&r.cliRuns, 1)
 	if res.Exit != 0 || res.TimedOut {
 		return asmObs{Out: res.Stdout, Fail: fmt.Sprintf("exit %d: %s", res.Exit, lastLine(res.Stderr))}
@@ -355,7 +370,7 @@ func (r *asmReplayer) judge(cs *AsmCase, o asmObs) string {
 
 // observe runs one program, in-process when possible, through the CLI otherwise.
 func (r *asmReplayer) observe(root, text string, forceCLI bool) (asmObs, bool, error) {
-	if !forceCLI {
+	if !forceCLI && r.cfgName == "" { // the -f flag is a feature of the CLI
 		rep, err := r.pool.run(root, text)
 		if err != nil {
 			return asmObs{}, false, err
